@@ -92,8 +92,8 @@ CLAIMED = {
    technique="Coq proofs of matrix semantics incl. linear independence + exact term-level correspondence",
    design="6 C12"),
  "C13": dict(
-   text="Proof + exact differential exploration. Model/Decomp.v: Pauli-order vectorisation, the butterfly (block-recursive, with the source's strided loop as a second executable form compared on every case), diagonal variant, index conventions, weight table, shape validation; integer numerators (2^n x the source's vector). Proved for every n and every matrix over Z[i]: the entry a string looks up is tr(M(P)A) (C13_coeff); the weights reconstruct the matrix (C13_reconstruct); diagonal variant = general one on diagonal matrices, X/Y strings weigh 0; weight table = number of non-identity letters at the string's index; accepted shapes. Per run: matrices with Gaussian-integer entries (dense, sparse, Hermitian, Pauli, diagonal) n<=4 (6): 2^n*w exactly vs the model; for n<=3 every string as key: reconstruction and trace formula on the implementation's own matrices; weight tables; entropy vs defining sum; rejection table.",
-   note="Equality of the iterative strided loop and the block-recursive butterfly is checked by execution on every case, not proved. log2 and float rounding in entropy/influence not modelled (partial w.r.t. floats). No axioms.",
+   text="Proof + exact differential exploration. Model/Decomp.v: Pauli-order vectorisation, the butterfly (the source's strided in-place loops and the block recursions, proved equal for every n: C13_iterative, C13_iterative_diag), diagonal variant, index conventions, weight table, shape validation; integer numerators (2^n x the source's vector). Proved for every n and every matrix over Z[i]: the entry a string looks up is tr(M(P)A) (C13_coeff); the weights reconstruct the matrix (C13_reconstruct); diagonal variant = general one on diagonal matrices, X/Y strings weigh 0; weight table = number of non-identity letters at the string's index; accepted shapes. Per run: matrices with Gaussian-integer entries (dense, sparse, Hermitian, Pauli, diagonal) n<=4 (6): 2^n*w exactly vs the model; for n<=3 every string as key: reconstruction and trace formula on the implementation's own matrices; weight tables; entropy vs defining sum; rejection table.",
+   note="log2 and float rounding in entropy/influence not modelled (partial w.r.t. floats). No axioms.",
    technique="Coq induction over the first qubit (block recursion) + exact dyadic comparison with the implementation",
    design="6 C13"),
  "C16": dict(
